@@ -98,8 +98,7 @@ pub fn from_unixtime_us(
     _return_type: &TypeScheme,
 ) -> Result<Value, Box<RuntimeErrorKind>> {
     // Note: `as i64` would silently turn NaN into 0 (i.e. 1970-01-01)
-    let us = quantity_arg!(args)
-        .unsafe_value()
+    let us = scalar_arg!(args)
         .to_f64()
         .to_i64()
         .ok_or(RuntimeErrorKind::DateTimeOutOfRange)?;
@@ -117,7 +116,7 @@ fn calendar_add(
     to_span: fn(i64) -> std::result::Result<Span, jiff::Error>,
 ) -> Result<Value, Box<RuntimeErrorKind>> {
     let dt = datetime_arg!(args);
-    let n = quantity_arg!(args).unsafe_value().to_f64();
+    let n = scalar_arg!(args).to_f64();
 
     if n.fract() != 0.0 {
         return Err(Box::new(RuntimeErrorKind::UserError(format!(
